@@ -87,12 +87,12 @@ def run_C16(res, tier, seed, t_end, bad):
 import matrices as Mx
 
 
-def matrix_pre(res, prop, tier, seed, t_end, specs, observers=()):
+def matrix_pre(res, prop, tier, seed, t_end, specs, observers=(), watcher=False):
     for label, cases, sample in specs:
         if res.findings:
             return
         Mx.run_cases(res, prop, cases(), tier, seed, t_end, sample, observers, PROPS[prop]['scope'] if label not in ('ttl-rules', 'missing-keys', 'floats', 'sets', 'lists', 'zsets', 'set-options') or prop in ('C01', 'C02', 'C03') and label in ('sets', 'lists', 'zsets', 'set-options') else None,
-                     label=label)
+                     label=label, watcher=watcher)
 
 
 def generic(prop, plan_q, plan_t, n_q, n_t, observers=(), versions=(6, 7), pre=None):
@@ -325,8 +325,9 @@ def run_C08(res, tier, seed, t_end, bad):
     if not res.findings:
         wrongtype_matrix(res, tier, seed, t_end)
     if not res.findings:
-        matrix_pre(res, 'C08', tier, seed, t_end, [('floats', Mx.floats_cases, 500), ('set-options', Mx.set_option_cases, 400), ('lists', Mx.lists_cases, 500),
-                                                   ('strings', Mx.strings_cases, 500)], obs)
+        # in full, with a second client that WATCHes every key of the case just before its last command
+        matrix_pre(res, 'C08', tier, seed, t_end, [('floats', Mx.floats_cases, 1000), ('set-options', Mx.set_option_cases, 1000), ('lists', Mx.lists_cases, 2200),
+                                                   ('strings', Mx.strings_cases, 2200), ('zsets', Mx.zsets_cases, 1200), ('sets', Mx.sets_cases, 100)], obs, watcher=True)
 
 
 # ---- C09 -------------------------------------------------------------------------------------
@@ -466,7 +467,7 @@ def scan_type_oracle(res, tier, seed, t_end):
 
 
 def run_C15(res, tier, seed, t_end, bad):
-    matrix_pre(res, 'C15', tier, seed, t_end, [('scan-filters', Mx.scan_filter_cases, 250)])
+    matrix_pre(res, 'C15', tier, seed, t_end, [('scan-filters', Mx.scan_filter_cases, 400)])
     if res.findings:
         return
     scan_type_oracle(res, tier, seed, t_end)
@@ -681,6 +682,9 @@ def struct_unpack(bits):
 
 def run_C11(res, tier, seed, t_end, bad):
     import blocking as Bl
+    Bl.run_sched_scenarios(res, tier, seed, t_end, 2000)
+    if res.findings:
+        return
     Bl.run_sched_campaign(res, tier, seed, t_end, budget(tier, 40, 1200), 70)
     if not res.findings:
         Bl.real_threads_smoke(res, tier, seed, t_end)
@@ -830,7 +834,9 @@ def run_C12(res, tier, seed, t_end, bad):
         # commands that wait (BLPOP/BRPOPLPUSH) take effect in their LAST critical section: the scheduler harness drives the real
         # _blocking code through every order of critical sections and compares with the sequential model
         import blocking as Bl
-        Bl.run_sched_campaign(res, tier, seed + 12, t_end, budget(tier, 15, 400), 60)
+        Bl.run_sched_scenarios(res, tier, seed + 12, t_end, 700)
+        if not res.findings:
+            Bl.run_sched_campaign(res, tier, seed + 12, t_end, budget(tier, 15, 400), 60)
 
 
 def constructor_race(res, tier, seed, t_end):
